@@ -1386,6 +1386,8 @@ void timeout value, job execution will be unbounded");
 	}
 
 clean_up:
+	/* the timeout is this task's, don't let it hit the next one */
+	alarm(0);
 	free_task(&xt);
 
 	/* reset umask */
